@@ -171,6 +171,9 @@ package anthropic
 //@   modifies gvar argsIn
 //@   records argsIn = ite(res1, concat(old(argsIn), res0.arguments), old(argsIn))
 //@   ensures res1 ==> res0 != nil && fresh(res0)
+// what is extracted is what the chunk says (C13: id, name and argument fragments of each tool call)
+//@   ensures res1 <==> (isObj(tc) && isObj(blkMap(tc)["function"]))
+//@   ensures res1 ==> res0.id == strOf(blkMap(tc)["id"]) && res0.name == strOf(blkMap(blkMap(tc)["function"])["name"]) && res0.arguments == strOf(blkMap(blkMap(tc)["function"])["arguments"])
 
 //@ func (t *Translator) initializeToolBlock
 //@   property C13
